@@ -330,6 +330,11 @@ func (w *World) verifyFunc(fi *FuncInfo, fc *FuncContract) (ex *Exec, err error)
 	}
 	for k := range fc.StmtHints {
 		if !fc.StmtHints[k].used {
+			if fc.StmtHints[k].Use != nil {
+				// a lemma instantiation is only a proof aid: without its anchor the proof is attempted without it
+				ex.notes = append(ex.notes, fmt.Sprintf("stmt hint (use) at %s has no anchor any more: skipped", fc.StmtHints[k].Where))
+				continue
+			}
 			return ex, fmt.Errorf("stmt hint at %s: no statement of the function starts on that line", fc.StmtHints[k].Where)
 		}
 	}
@@ -432,12 +437,24 @@ func (ex *Exec) execReturn(st *State, s *ast.ReturnStmt) {
 		}
 		for k := range ex.fc.RetLetsText {
 			h := &ex.fc.RetLetsText[k]
-			if !strings.HasPrefix(line, h.Text) {
+			if strings.HasSuffix(h.Text, "$") {
+				// "text$": the whole statement line (without a trailing comment) must be exactly text
+				bare := line
+				if c := strings.Index(bare, "//"); c >= 0 {
+					bare = strings.TrimSpace(bare[:c])
+				}
+				if bare != strings.TrimSuffix(h.Text, "$") {
+					continue
+				}
+			} else if !strings.HasPrefix(line, h.Text) {
 				continue
 			}
 			ex.retTextSeen[k]++
 			if ex.retTextSeen[k] == h.K {
 				h.used = true
+				if h.Dead {
+					ex.fc.Dead = append(ex.fc.Dead, fmt.Sprintf("cover.ret%d", rn))
+				}
 				for nm, e := range h.Lets {
 					extra[nm] = ex.specVal(st, e, extra)
 				}
